@@ -29,8 +29,57 @@ def sweep_scenarios(quick, seed):
                     n += 1
                     if quick and n % 4 != seed % 4:
                         continue
-                    out.append({"ttl": ttl, "jump": jump, "later": later, "op": op, "sized": n % 2, "syncexec": (n // 2) % 2, "warm": n % 3})
+                    out.append({"ttl": ttl, "jump": jump, "later": later, "op": op, "sized": n % 2, "syncexec": (n // 2) % 2, "warm": n % 3, "max": 0})
+    # a READ racing the sweep: it samples the clock before the deadline, is parked before storing the extended deadline, the
+    # deadline passes and maintenance runs ("provided reads only ever extend deadlines")
+    k = 0
+    for ttl in (3 * TICK, 10 * TICK, 70 * TICK):
+        for op in ("read.setifabsent", "read.get", "read.getentry"):
+            for jump in (TICK + 7, 2 * TICK):
+                k += 1
+                if quick and k % 2 != seed % 2:
+                    continue
+                out.append({"ttl": ttl, "jump": jump, "later": 3 * ttl + 5 * TICK, "op": op, "sized": k % 2, "syncexec": (k // 2) % 2, "warm": 0,
+                            "max": 4 + k % 5})
     return out
+
+
+def read_race_half(prop, tier):
+    """The read-race scenarios only (a read that extends the deadline is parked while the deadline passes and maintenance
+    runs), judged by SweepHist.tla; returns (scenarios, [(pred, detail, path)] owned by `prop`, broken)."""
+    seed = vlib.seed()
+    scs = [sc for sc in sweep_scenarios(False, seed) if sc["op"].startswith("read.")]
+    if tier == "quick":
+        scs = [sc for sc in scs if sc["sized"] == 1]
+    with vlib.scratch("verif-rr-") as work:
+        obin = vlib.build_test_binary(work, "otter")
+        inp, outp, dv, jp = (os.path.join(work, x) for x in ("rr.in.json", "rr.out.ndjson", "rr.dev.json", "rr.judge.ndjson"))
+        with open(inp, "w") as f:
+            json.dump(scs, f)
+        rc, out = vlib.run_test_binary(obin, "TestVerifSweep", {"VERIF_IN": inp, "VERIF_OUT": outp}, timeout=900)
+        if rc != 0:
+            return 0, [], ["read-race driver failed:\n" + out[-2000:]]
+        with open(outp) as f, open(jp, "w") as g:
+            for line in f:
+                r = json.loads(line)
+                sc = r["sc"]
+                r["mustsweep"], r["deadlinepassed"], r["tickns"] = 1, 1, 0
+                r["sc"] = {"ttl": str(sc["ttl"]), "jump": str(sc["jump"]), "later": str(sc["later"]), "op": sc["op"], "sized": sc["sized"],
+                           "syncexec": sc["syncexec"], "warm": sc["warm"], "warmlive": 0, "max": sc.get("max", 0)}
+                g.write(json.dumps(r) + "\n")
+        t = vlib.run_tlc(work, "SweepHist", os.path.join(vlib.SPEC, "SweepHist.cfg"), workers=1, timeout=600, heap="2g",
+                         env_extra={"VERIF_TRACE": jp, "VERIF_DEVOUT": dv})
+        if not vlib.tlc_ok(t) or not os.path.exists(dv):
+            return 0, [], ["SweepHist did not complete:\n" + t["out"][-2500:]]
+        with open(dv) as f:
+            d = json.load(f)
+    viol = []
+    for x in d["devs"]:
+        if not x["pred"].startswith(prop + "."):
+            continue
+        path = vlib.save_replay(prop, "readrace-%d" % seed, {"seed": seed, "scenario": scs[x["rec"] - 1]})
+        viol.append((x["pred"], x["detail"], path))
+    return d["n"], viol, []
 
 
 def wheel_fired_early(prop, tier):
@@ -140,8 +189,11 @@ def run(prop, tier, replay=None):
                     total = sc["jump"] + sc["later"]
                     r["mustsweep"] = 1 if (total - sc["ttl"] > TICK and sc["later"] > TICK) else 0
                     r["deadlinepassed"] = 1 if sc["ttl"] <= total else 0
+                    if sc["op"].startswith("read."):
+                        # the extended deadline is at most (ttl - 1000) + ttl after the write; later = 3 ttl + 5 ticks lies beyond it
+                        r["mustsweep"], r["deadlinepassed"] = 1, 1
                     r["sc"] = {"ttl": str(sc["ttl"]), "jump": str(sc["jump"]), "later": str(sc["later"]), "op": sc["op"], "sized": sc["sized"],
-                               "syncexec": sc["syncexec"], "warm": sc["warm"], "warmlive": 0 if r["mustsweep"] else sc["warm"] + 1}
+                               "syncexec": sc["syncexec"], "warm": sc["warm"], "warmlive": 0 if r["mustsweep"] else sc["warm"] + 1, "max": sc.get("max", 0)}
                     r["tickns"] = 0
                     recs.append((r, sc))
             jp = os.path.join(work, "sweep.judge.ndjson")
